@@ -69,6 +69,11 @@ var props = map[string]propCfg{
 		Rule: "one case = one simulated run (plan + fault plan + schedule tape). Enumerated (complete for that sub-space): 14 stages x capacity {0,1,2} x input length 0..3 x 4 base schedules (thorough: length 0..4, 6 schedules), each base run re-run with the cancel injected before every step k=0..L and with each consumer walking away after every k=0..len+1 elements; then seeded random plans with cancel (step, virtual-time, at quiescence), abandonment, never-closing inputs, stalls, failing functions. " + distinctRule},
 }
 
+func init() {
+	props["C07"] = propCfg{Engine: "pipesim", Level: "fault_enumeration", QuickRandom: 30000, QuickWall: 25, ThoroughRand: 3000000, ThoroughWall: 420,
+		Rule: "one case = one simulated run. Fault = the user function returning an error. Enumerated (complete for that sub-space): {Map,FMap}x{Lift,Try}, Emit x {Lift,Try}, Unfold x Lift, every subset of failing positions for n = 0..4 (thorough 0..6), capacity {0,1,2}, 4 base schedules, 3 consumer orders (concurrent, values first, errors first); then seeded random plans (n <= 6, thorough <= 40; first/last/all/sparse/dense failure patterns; StdErr as the error reader; paces; all policies). " + distinctRule}
+}
+
 const distinctRule = "Distinct = distinct hash of the (task,site) release sequence and select outcomes; non-trivial = a fault fired (cancel while library tasks were alive, abandonment, stall, select arbitration against source order, preemption, failing function) or at least 3 scheduling decisions had >= 2 runnable tasks."
 
 
@@ -118,6 +123,11 @@ func main() {
 		os.Exit(doReplay(st, prop, *replay, true))
 	}
 
+	if old, _ := filepath.Glob(filepath.Join(verif, "replays", prop+"-*.json")); len(old) > 0 {
+		for _, f := range old {
+			os.Remove(f)
+		}
+	}
 	thorough := *tier == "thorough"
 	random, wallLimit := cfg.QuickRandom, cfg.QuickWall
 	if thorough {
